@@ -25,7 +25,7 @@ def check(case):
 
     def fail(bucket, detail, labels=None):
         if not any(x[0] == bucket for x in fails):
-            fails.append((bucket, detail, labels or {}))
+            fails.append((bucket, detail, dict(labels or {}, guard_cell=gridcheck.in_guard_cells(side, detail), family=case.desc["family"])))
 
     def margin(name, v):
         if numpy.isfinite(v):
